@@ -1,6 +1,6 @@
 """C01 — Parse accepts exactly the JSON grammar (object or array at the root). DESIGN §5.1 / §10.4:
 stage 1 = REF-SCAN (E1: A1-A7), string decoder verdict (E1: S1, S2), number grammar (P2), stage 2 = reference parser
-(P3 tiers (i)+(ii)), the whole synchronous parseMessage incl. the Go driver of stage 1 (U1)."""
+(P3 tiers (i)+(ii)), the whole synchronous parseMessage incl. the Go driver of stage 1 (U1), that driver alone on free layouts (U3)."""
 from ..e2.checklib import run_lemmas
 from .. import lemmas_stage2, lemma_sets_e1
 from . import C03
@@ -19,5 +19,6 @@ def run(ctx):
     ls += lemmas_stage2.p3_lemmas(ctx.tier, ndjson=(0,))
     ls += lemmas_stage2.p3_skeleton_lemmas(ctx.tier, ndjson=(0,))
     ls += lemmas_stage2.u1_lemmas(ctx.tier, ndjson=(0,), havoc=(0,))
+    ls += lemmas_stage2.u3_lemmas(ctx.tier, ndjson=(0,))
     ls += lemmas_stage2.deep_lemmas(ctx.tier)
     run_lemmas(ctx, ls)
